@@ -828,7 +828,7 @@ fn mkcounter() -> Item {
 
 // ================================================================== FA: aggregates
 
-const FA_RADIX: u64 = 31;
+const FA_RADIX: u64 = 34;
 pub fn fa_count(k: u32) -> u64 {
     seq_count(FA_RADIX, k)
 }
@@ -1016,6 +1016,21 @@ fn fa_stmt(c: &mut ACtx, o: u64) -> Option<()> {
             c.vars.push((p, ATy::F));
             c.vars.push((q, ATy::F));
             c.vars.push((w, ATy::F));
+        }
+        31 | 32 => {
+            // assignment to one field of a record held by a local
+            let r = c.last(ATy::Rec)?;
+            let f = if o == 31 { "a" } else { "b" };
+            let e = bin("+", c.f(0)?, num(if o == 31 { 100.0 } else { 200.0 }));
+            c.ops.push(format!("record.{f} = a + k"));
+            c.stmts.push(S::Assign(format!("{r}.{f}"), e));
+        }
+        33 => {
+            // record update: a copy with the later field replaced first
+            let r = c.last(ATy::Rec)?;
+            let v = c.fresh("r");
+            let e = E::Record(vec![("<-".into(), var(&r)), ("b".into(), bin("+", c.f(0)?, num(300.0))), ("a".into(), c.f(2)?)]);
+            c.push(v, ATy::Rec, e, "{record <- b = .., a = ..}".into());
         }
         21..=27 => {
             // default arguments and parameter packs (a trailing field named ".." prints the open form `{q = a, ..}`)
